@@ -9,7 +9,7 @@
 #define STR(name) M__ZNSt7__cxx1112basic_stringIcSt11char_traitsIcESaIcEE##name
 #define STRK(name) M__ZNKSt7__cxx1112basic_stringIcSt11char_traitsIcESaIcEE##name
 static void ir_throw_std(void) { __ir_exc_pending = 1; __ir_exc_obj = 0; __ir_exc_ti = 0; }
-static void s_init(u8* s) { u8* b = (u8*)malloc(SCAP); IR_ASSUME(b != 0); b[0] = 0; S_P(s) = b; S_LEN(s) = 0; }
+static void s_init(u8* s) { u8* b = IR_ALLOC(SCAP); b[0] = 0; S_P(s) = b; S_LEN(s) = 0; }
 static void s_set(u8* s, const u8* src, u64 n) { IR_ASSERT(n < SCAP, "BOUND: string longer than SCAP"); IR_ASSUME(n < SCAP); u8* d = S_P(s); for (u64 i = 0; i < n; i++) d[i] = src[i]; d[n] = 0; S_LEN(s) = n; }
 static u64 c_len(const u8* c) { u64 n = 0; while (c[n]) n++; return n; }
 void STR(C2Ev)(u8* s) { s_init(s); }
@@ -17,7 +17,7 @@ void STR(C2ERKS3_)(u8* s, u8* alloc) { s_init(s); }
 void STR(C2EPKcRKS3_)(u8* s, u8* c, u8* alloc) { s_init(s); s_set(s, c, c_len(c)); }
 void STR(C2ERKS4_)(u8* s, u8* o) { s_init(s); s_set(s, S_P(o), S_LEN(o)); }
 void STR(C2EOS4_)(u8* s, u8* o) { S_P(s) = S_P(o); S_LEN(s) = S_LEN(o); s_init(o); }
-void STR(D2Ev)(u8* s) { free(S_P(s)); }
+void STR(D2Ev)(u8* s) { IR_FREE(S_P(s)); }
 u64 STRK(4sizeEv)(u8* s) { return S_LEN(s); }
 u64 STRK(6lengthEv)(u8* s) { return S_LEN(s); }
 u8 STRK(5emptyEv)(u8* s) { return S_LEN(s) == 0; }
@@ -29,7 +29,7 @@ u8* STRK(ixEm)(u8* s, u64 i) { return S_P(s) + i; }
 u8* STR(ixEm)(u8* s, u64 i) { return S_P(s) + i; }
 void STR(7reserveEm)(u8* s, u64 n) { IR_ASSERT(n < SCAP, "BOUND: reserve beyond SCAP"); }
 void STRK(13get_allocatorEv)(u8* ret, u8* s) { }
-u8* STR(aSEOS4_)(u8* s, u8* o) { if (s != o) { free(S_P(s)); S_P(s) = S_P(o); S_LEN(s) = S_LEN(o); s_init(o); } return s; }
+u8* STR(aSEOS4_)(u8* s, u8* o) { if (s != o) { IR_FREE(S_P(s)); S_P(s) = S_P(o); S_LEN(s) = S_LEN(o); s_init(o); } return s; }
 u8* STR(aSERKS4_)(u8* s, u8* o) { if (s != o) s_set(s, S_P(o), S_LEN(o)); return s; }
 u8* STR(aSEPKc)(u8* s, u8* c) { s_set(s, c, c_len(c)); return s; }
 u8* STR(6appendEPKcm)(u8* s, u8* c, u64 n) { u64 l = S_LEN(s); IR_ASSERT(l + n < SCAP, "BOUND: append beyond SCAP"); IR_ASSUME(l + n < SCAP); u8* d = S_P(s); for (u64 i = 0; i < n; i++) d[l + i] = c[i]; d[l + n] = 0; S_LEN(s) = l + n; return s; }
@@ -66,8 +66,8 @@ u8* M__ZSt9use_facetISt5ctypeIcEERKT_RKSt6locale(u8* loc) { return (u8*)&fake_ct
 u32 M_isspace(u32 c_) { int c = (int)c_; return c == ' ' || (c >= 9 && c <= 13); }
 
 
-u8* M__Znwm(u64 n) { IR_ASSERT(n <= 1400, "BOUND: operator new larger than model capacity"); IR_ASSUME(n <= 1400); u8* p = (u8*)malloc(1400); IR_ASSUME(p != 0); return p; }
-void M__ZdlPv(u8* p) { free(p); }
+u8* M__Znwm(u64 n) { return IR_ALLOC(n); }
+void M__ZdlPv(u8* p) { IR_FREE(p); }
 u32 M_tolower(u32 c_) { int c = (int)c_; return (c >= 'A' && c <= 'Z') ? (u32)(c + 32) : (u32)c; }
 u32 M_toupper(u32 c_) { int c = (int)c_; return (c >= 'a' && c <= 'z') ? (u32)(c - 32) : (u32)c; }
 u32 M_memcmp(u8* a, u8* b, u64 n) { for (u64 i = 0; i < n; i++) { if (a[i] != b[i]) return a[i] < b[i] ? (u32)-1 : 1u; } return 0; }
@@ -76,12 +76,12 @@ u8* M_memchr(u8* s, u32 c, u64 n) { for (u64 i = 0; i < n; i++) if (s[i] == (u8)
 /* ---- iostreams: the first word of every stream (sub-)object points to a heap ADT string that
    holds everything written so far.  basic_stringstream: istream at +0, ostream at +16. */
 #define OS_BUF(os) (*(u8**)(os))
-static u8* strm_newbuf(void) { u8* b = (u8*)malloc(32); IR_ASSUME(b != 0); s_init(b); return b; }
+static u8* strm_newbuf(void) { u8* b = IR_ALLOC(32); s_init(b); return b; }
 void M_ss_ctor(u8* ss) { u8* b = strm_newbuf(); *(u8**)ss = b; *(u8**)(ss + 16) = b; }
-void M_ss_dtor(u8* ss) { u8* b = *(u8**)ss; free(S_P(b)); free(b); }
+void M_ss_dtor(u8* ss) { u8* b = *(u8**)ss; IR_FREE(S_P(b)); IR_FREE(b); }
 void M_ss_str(u8* ret, u8* ss) { u8* b = *(u8**)ss; s_init(ret); s_set(ret, S_P(b), S_LEN(b)); }
 void M_oss_ctor(u8* ss) { *(u8**)ss = strm_newbuf(); }
-void M_oss_dtor(u8* ss) { u8* b = *(u8**)ss; free(S_P(b)); free(b); }
+void M_oss_dtor(u8* ss) { u8* b = *(u8**)ss; IR_FREE(S_P(b)); IR_FREE(b); }
 void M_oss_str(u8* ret, u8* ss) { u8* b = *(u8**)ss; s_init(ret); s_set(ret, S_P(b), S_LEN(b)); }
 u8* M_os_insert(u8* os, u8* c, u64 n) { STR(6appendEPKcm)(OS_BUF(os), c, n); return os; }
 u8* M_os_ls_cstr(u8* os, u8* c) { STR(6appendEPKcm)(OS_BUF(os), c, c_len(c)); return os; }
